@@ -243,5 +243,52 @@ example : crun true ⟨.waiting, 1⟩ [.request, .respond, .loopTop] = some ⟨.
 example : (run false (Srv.new 3) [.grant, .acceptOk, .grant, .acceptOk, .grant, .acceptOk, .revoke, .seeRevoked]).map
     (fun s => (s.acc, s.serving, s.tokens.units)) = some (Acc.stopped, 3, 0) := by decide
 
+/-! ### The whole loop of a connection task, `k` requests waiting, the permit revoked by the `j`-th handler -/
+
+theorem servedUnder_some (k j : Nat) : ∀ (f r : Nat), r ≤ k → k - r + 1 ≤ f →
+    servedUnder k (some j) f ⟨.check, r⟩ = if j ≤ r then r else min j k := by
+  intro f
+  induction f with
+  | zero => intro r _ h; omega
+  | succ f ih =>
+    intro r hr hf
+    by_cases hj : j ≤ r
+    · simp [servedUnder, cstep, hj]
+    · have hd : decide (r ≥ j) = false := by simpa using hj
+      by_cases hk : r < k
+      · have := ih (r + 1) (by omega) (by omega)
+        simp only [servedUnder, cstep, crun, hd, hk, if_true, if_false, if_pos, reduceCtorEq] at this ⊢
+        simp only [this]
+        split <;> omega
+      · simp [servedUnder, cstep, hd, hk, hj]
+        omega
+
+theorem servedUnder_none (k : Nat) : ∀ (f r : Nat), r ≤ k → k - r + 1 ≤ f →
+    servedUnder k none f ⟨.check, r⟩ = k := by
+  intro f
+  induction f with
+  | zero => intro r _ h; omega
+  | succ f ih =>
+    intro r hr hf
+    by_cases hk : r < k
+    · have := ih (r + 1) (by omega) (by omega)
+      simpa [servedUnder, cstep, crun, hk] using this
+    · simp [servedUnder, cstep, hk]
+      omega
+
+/-- C13 (the connection task, whole loop): with `k` requests already waiting, a task whose permit is revoked before it
+    starts serves nothing; revoked by the handler of its `j`-th request it completes that request and serves no further one
+    (`min j k` responses); never revoked, it serves all `k`.  (The harness runs `handle_http_conn` itself on these cases.) -/
+theorem C13_task_under_permit (k j : Nat) :
+    servedUnder k (some 0) (k + 2) ⟨.check, 0⟩ = 0 ∧
+    servedUnder k (some j) (k + 2) ⟨.check, 0⟩ = min j k ∧
+    servedUnder k none (k + 2) ⟨.check, 0⟩ = k := by
+  refine ⟨?_, ?_, servedUnder_none k _ 0 (Nat.zero_le _) (by omega)⟩
+  · simpa using servedUnder_some k 0 (k + 2) 0 (Nat.zero_le _) (by omega)
+  · have := servedUnder_some k j (k + 2) 0 (Nat.zero_le _) (by omega)
+    by_cases hj : j = 0
+    · subst hj; simpa using this
+    · simpa [Nat.pos_of_ne_zero hj, Nat.not_le.mpr (Nat.pos_of_ne_zero hj)] using this
+
 end Server
 end Servlin
